@@ -124,7 +124,7 @@ def run(ctx):
         return
     ctx.log("harness built")
     rng = ctx.rng
-    n_wf = 300 if ctx.quick else 15000
+    n_wf = 300 if ctx.quick else 6000
     n_adv = 8 if ctx.quick else 600
     cases = []
     # corpus: the refutation witnesses of coq/C20/Props.v first
@@ -170,7 +170,7 @@ def run(ctx):
         srcs = [bytes.fromhex(p["source"]) for p in r["lock"]]
         items.append("C20case %s %s %s %s" % (base.coq_table(qs, verd, srcs), base.coq_graph(r["g1"]), base.coq_lock(r["lock"]), impl))
         idx.append(ci)
-    shards = ["Definition cs : list case20 := [\n%s\n].\nEval vm_compute in (judge20_all cs)." % ";\n".join(ch) for ch in base.shard(items, NCPU)]
+    shards = ["Definition cs : list case20 := [\n%s\n].\nEval vm_compute in (judge20_all cs)." % ";\n".join(ch) for ch in base.shard(items, max(NCPU, (len(items) + 199) // 200))]
     try:
         res = coq.run_cases(ctx, "c20", HEADER, shards)
     except RuntimeError as e:
